@@ -402,8 +402,10 @@ def _run_property(prop_name, tier, seed, replay, verbose):
 
     # ---- 7. verdict ---------------------------------------------------------------
     if new:
-        os.makedirs(REPLAY_DIR, exist_ok=True)
-        path = os.path.join(REPLAY_DIR, '%s-%s-seed%d.json' % (pid, tier, seed))
+        # (a run against a scratch copy - harness.mutate - keeps its replay apart from those of runs against /repo)
+        rdir = REPLAY_DIR if os.path.realpath(REPO) == '/repo' else os.path.join(REPLAY_DIR, 'scratch-copies')
+        os.makedirs(rdir, exist_ok=True)
+        path = os.path.join(rdir, '%s-%s-seed%d.json' % (pid, tier, seed))
         bad_cases, seen = [], set()
         detail = []
         for rid, clauses, fp in new[:200]:
